@@ -22,6 +22,28 @@ func (e *specErr) Error() string { return e.msg }
 
 func specf(format string, a ...interface{}) error { return &specErr{fmt.Sprintf(format, a...)} }
 
+// goFieldOf finds the Go struct field of IDL field f: by its `thrift:"name,id..."`
+// tag, or — for slim output, which has no tags — by position in the declaration.
+func goFieldOf(st reflect.Type, d *idl.Decl, id int) (int, bool) {
+	if i, ok := goFieldByID(st, id); ok {
+		return i, true
+	}
+	for i := 0; i < st.NumField(); i++ {
+		if st.Field(i).Tag.Get("thrift") != "" {
+			return 0, false // tagged struct without that id
+		}
+	}
+	if st.NumField() != len(d.Fields) {
+		return 0, false
+	}
+	for i, f := range d.Fields {
+		if f.ID == id {
+			return i, true
+		}
+	}
+	return 0, false
+}
+
 // goFieldByID finds the Go struct field carrying `thrift:"name,id..."`.
 func goFieldByID(st reflect.Type, id int) (int, bool) {
 	for i := 0; i < st.NumField(); i++ {
@@ -198,7 +220,7 @@ func ExpectStruct(p *idl.Program, d *idl.Decl, v reflect.Value) (*Node, error) {
 	}
 	n := &Node{T: thrift.STRUCT}
 	for _, f := range d.Fields {
-		i, ok := goFieldByID(v.Type(), f.ID)
+		i, ok := goFieldOf(v.Type(), d, f.ID)
 		if !ok {
 			return nil, specf("%s: no Go field carries the thrift tag of field %d (%s)", d.Name, f.ID, f.Name)
 		}
@@ -421,7 +443,7 @@ func FromTree(p *idl.Program, ty *idl.Type, gt reflect.Type, n *Node) (reflect.V
 // FillFromTree sets the fields of struct value v from tree n.
 func FillFromTree(p *idl.Program, d *idl.Decl, v reflect.Value, n *Node) error {
 	for _, f := range d.Fields {
-		i, ok := goFieldByID(v.Type(), f.ID)
+		i, ok := goFieldOf(v.Type(), d, f.ID)
 		if !ok {
 			return specf("%s: no Go field carries the thrift tag of field %d (%s)", d.Name, f.ID, f.Name)
 		}
